@@ -22,6 +22,12 @@ type Ev struct {
 	Y   int    `json:"y,omitempty"`
 	Z   int    `json:"z,omitempty"`
 	Raw bool   `json:"raw,omitempty"`
+	// explicit custom-message parameters (C14): recipient ids as sent, body
+	// length and byte pattern
+	P  []uint32 `json:"p,omitempty"`
+	N  int      `json:"n,omitempty"`
+	B  int      `json:"b,omitempty"`
+	Ex bool     `json:"ex,omitempty"`
 }
 
 func (e Ev) String() string {
@@ -113,6 +119,7 @@ type MSession struct {
 	Assets   map[uint32]MAsset
 	AssetIDs map[uint32]bool
 	Joins    int
+	Quads    []string // ground-plane samples (canonical), non-merging lattice only
 }
 
 type pendingUpd struct {
@@ -402,7 +409,7 @@ func (m *Model) Key() string {
 			a := s.Assets[uint32(e)]
 			fmt.Fprintf(&sb, " i(%d,%s,%d,#%d)", e, a.Asset, a.By, a.ID)
 		}
-		fmt.Fprintf(&sb, " assets#%d", len(s.AssetIDs))
+		fmt.Fprintf(&sb, " assets#%d quads%v", len(s.AssetIDs), s.Quads)
 	}
 	return sb.String()
 }
